@@ -1,4 +1,5 @@
-import MgpuProofs.C03SLemmas
+import MgpuProofs.C03SBits
+import MgpuProofs.C03SRows
 /-! # C03 (scalar part) — every scalar instruction executes as the ISA prescribes
 
 `Gen.gcn3.*` / `Gen.cdna3.*` are REGENERATED from the Go handlers (`emu.ALUImpl`, `cdna3.ALU`) on
@@ -8,7 +9,7 @@ architectural effect including the frame.  `ScalarOut.norm w` keeps the low `w` 
 handed to `WriteOperand`, as the register file does for a destination of `w` bits. -/
 namespace C03S
 open C03S
-set_option maxRecDepth 2000
+set_option maxRecDepth 4000
 
 /-! ## Meaning of the specification (so that it is not a second copy of the code) -/
 
@@ -79,7 +80,11 @@ theorem s_and_saveexec_b64_meaning (i : ScalarIn) :
 example : (Spec.s_add_i32 { src0 := 0x7fffffff#64, src1 := 1#64, dstOld := 0, scc := 0, vcc := 0, exec := 0, pc := 0, simm16 := 0 }).scc = some 1#8 := by decide
 example : (Spec.s_bfe_i32 { src0 := 0xf0#64, src1 := 0x40004#64, dstOld := 0, scc := 0, vcc := 0, exec := 0, pc := 0, simm16 := 0 }).dst = some 0xffffffff#64 := by decide
 
-/-! ## Conformance of every translated handler (tie R), per architecture and opcode -/
+/-! ## Conformance of every handler (tie R), per architecture and opcode
+
+`ConformsTo`: for EVERY input record.  `ConformsArch` (the opcodes that read SCC): for every
+architectural input — SCC is one bit by type (`ArchIn`); `scc_is_bit` below shows every state
+reached by executing scalar instructions has such an input, so nothing is assumed. -/
 
 /-- GCN3 `s_add_u32` (format 0, opcode 0): the handler the opcode switch selects has, for every input, exactly the effect the ISA prescribes. -/
 theorem gcn3_s_add_u32_conforms : ConformsTo Gen.gcn3.dispatch 0 0 32 Spec.s_add_u32 :=
@@ -103,13 +108,15 @@ theorem gcn3_s_sub_i32_conforms : ConformsTo Gen.gcn3.dispatch 0 3 32 Spec.s_sub
     simp only [Gen.gcn3.run_SSUBI32, Spec.s_sub_i32, Spec.lo, ← ovf_sub]
     (repeat' split) <;> simp_all [ScalarOut.norm, keep, Spec.ret32, Spec.w32, Spec.bit]⟩
 
-/-- GCN3 `s_addc_u32` (format 0, opcode 4): the handler the opcode switch selects has, for every input, exactly the effect the ISA prescribes. -/
-theorem gcn3_s_addc_u32_conforms : ConformsScc Gen.gcn3.dispatch 0 4 32 Spec.s_addc_u32 :=
-  ⟨_, rfl, by conformS Gen.gcn3.run_SADDCU32 Spec.s_addc_u32⟩
+/-- GCN3 `s_addc_u32` (format 0, opcode 4): the handler the opcode switch selects has, for every architectural input (SCC one bit), exactly the effect the ISA prescribes. -/
+theorem gcn3_s_addc_u32_conforms : ConformsArch Gen.gcn3.dispatch 0 4 32 Spec.s_addc_u32 :=
+  conformsArch_iff_conformsScc.mpr
+    ⟨_, rfl, by conformS Gen.gcn3.run_SADDCU32 Spec.s_addc_u32⟩
 
-/-- GCN3 `s_subb_u32` (format 0, opcode 5): the handler the opcode switch selects has, for every input, exactly the effect the ISA prescribes. -/
-theorem gcn3_s_subb_u32_conforms : ConformsScc Gen.gcn3.dispatch 0 5 32 Spec.s_subb_u32 :=
-  ⟨_, rfl, by conformS Gen.gcn3.run_SSUBBU32 Spec.s_subb_u32⟩
+/-- GCN3 `s_subb_u32` (format 0, opcode 5): the handler the opcode switch selects has, for every architectural input (SCC one bit), exactly the effect the ISA prescribes. -/
+theorem gcn3_s_subb_u32_conforms : ConformsArch Gen.gcn3.dispatch 0 5 32 Spec.s_subb_u32 :=
+  conformsArch_iff_conformsScc.mpr
+    ⟨_, rfl, by conformS Gen.gcn3.run_SSUBBU32 Spec.s_subb_u32⟩
 
 /-- GCN3 `s_min_i32` (format 0, opcode 6): the handler the opcode switch selects has, for every input, exactly the effect the ISA prescribes. -/
 theorem gcn3_s_min_i32_conforms : ConformsTo Gen.gcn3.dispatch 0 6 32 Spec.s_min_i32 :=
@@ -127,9 +134,10 @@ theorem gcn3_s_max_i32_conforms : ConformsTo Gen.gcn3.dispatch 0 8 32 Spec.s_max
 theorem gcn3_s_max_u32_conforms : ConformsTo Gen.gcn3.dispatch 0 9 32 Spec.s_max_u32 :=
   ⟨_, rfl, by conform Gen.gcn3.run_SMAXU32 Spec.s_max_u32⟩
 
-/-- GCN3 `s_cselect_b32` (format 0, opcode 10): the handler the opcode switch selects has, for every input, exactly the effect the ISA prescribes. -/
-theorem gcn3_s_cselect_b32_conforms : ConformsScc Gen.gcn3.dispatch 0 10 32 Spec.s_cselect_b32 :=
-  ⟨_, rfl, by conformS Gen.gcn3.run_SCSELECTB32 Spec.s_cselect_b32⟩
+/-- GCN3 `s_cselect_b32` (format 0, opcode 10): the handler the opcode switch selects has, for every architectural input (SCC one bit), exactly the effect the ISA prescribes. -/
+theorem gcn3_s_cselect_b32_conforms : ConformsArch Gen.gcn3.dispatch 0 10 32 Spec.s_cselect_b32 :=
+  conformsArch_iff_conformsScc.mpr
+    ⟨_, rfl, by conformS Gen.gcn3.run_SCSELECTB32 Spec.s_cselect_b32⟩
 
 /-- GCN3 `s_and_b32` (format 0, opcode 12): the handler the opcode switch selects has, for every input, exactly the effect the ISA prescribes. -/
 theorem gcn3_s_and_b32_conforms : ConformsTo Gen.gcn3.dispatch 0 12 32 Spec.s_and_b32 :=
@@ -163,6 +171,13 @@ theorem gcn3_s_lshl_b32_conforms : ConformsTo Gen.gcn3.dispatch 0 28 32 Spec.s_l
 theorem gcn3_s_lshl_b64_conforms : ConformsTo Gen.gcn3.dispatch 0 29 64 Spec.s_lshl_b64 :=
   ⟨_, rfl, by conform Gen.gcn3.run_SLSHLB64 Spec.s_lshl_b64⟩
 
+/-- GCN3 `s_lshr_b32` (format 0, opcode 30): the handler the opcode switch selects has, for every input, exactly the effect the ISA prescribes. -/
+theorem gcn3_s_lshr_b32_conforms : ConformsTo Gen.gcn3.dispatch 0 30 32 Spec.s_lshr_b32 :=
+  ⟨_, rfl, by
+    intro i
+    simp only [Gen.gcn3.run_SLSHRB32, Spec.s_lshr_b32, Spec.logic32, Spec.lo, and31_toNat,
+      ← BitVec.setWidth_ushiftRight (show 32 ≤ 64 by decide), w64_bne_zero, ret32_ite, norm_ret32]⟩
+
 /-- GCN3 `s_lshr_b64` (format 0, opcode 31): the handler the opcode switch selects has, for every input, exactly the effect the ISA prescribes. -/
 theorem gcn3_s_lshr_b64_conforms : ConformsTo Gen.gcn3.dispatch 0 31 64 Spec.s_lshr_b64 :=
   ⟨_, rfl, by conform Gen.gcn3.run_SLSHRB64 Spec.s_lshr_b64⟩
@@ -171,9 +186,40 @@ theorem gcn3_s_lshr_b64_conforms : ConformsTo Gen.gcn3.dispatch 0 31 64 Spec.s_l
 theorem gcn3_s_ashr_i32_conforms : ConformsTo Gen.gcn3.dispatch 0 32 32 Spec.s_ashr_i32 :=
   ⟨_, rfl, by conform Gen.gcn3.run_SASHRI32 Spec.s_ashr_i32⟩
 
+/-- GCN3 `s_bfm_b32` (format 0, opcode 34): the handler the opcode switch selects has, for every input, exactly the effect the ISA prescribes. -/
+theorem gcn3_s_bfm_b32_conforms : ConformsTo Gen.gcn3.dispatch 0 34 32 Spec.s_bfm_b32 :=
+  ⟨_, rfl, by
+    intro i
+    simp only [Gen.gcn3.run_SBFMB32, Spec.s_bfm_b32, Spec.lo, and31_toNat, ScalarOut.norm, Option.map, keep32,
+      BitVec.setWidth_shiftLeft_of_le (show 32 ≤ 64 by decide), trunc_sub, one64_trunc, Spec.ret32n, Spec.w32]⟩
+
 /-- GCN3 `s_mul_i32` (format 0, opcode 36): the handler the opcode switch selects has, for every input, exactly the effect the ISA prescribes. -/
 theorem gcn3_s_mul_i32_conforms : ConformsTo Gen.gcn3.dispatch 0 36 32 Spec.s_mul_i32 :=
   ⟨_, rfl, by conform Gen.gcn3.run_SMULI32 Spec.s_mul_i32⟩
+
+/-- GCN3 `s_bfe_i32` (format 0, opcode 38): the handler the opcode switch selects has, for every input, exactly the effect the ISA prescribes. -/
+theorem gcn3_s_bfe_i32_conforms : ConformsTo Gen.gcn3.dispatch 0 38 32 Spec.s_bfe_i32 :=
+  ⟨_, rfl, by
+    intro i
+    have ho : (Go.extractBitsU32 (BitVec.setWidth 32 i.src1) 0#64 4#64).toNat < 32 := by
+      rw [extract_0_4]; exact Nat.mod_lt _ (by decide)
+    simp only [Gen.gcn3.run_SBFEI32, ret32_ite]
+    rw [← apply_ite (fun d => Spec.ret32 d (d != 0#32)), bfeI_gcn3 _ _ _ ho, spec_bfe_i32_eq, norm_ret32]
+    simp only [extract_0_4, extract_16_22, Spec.lo, Spec.bfeOffset, Spec.bfeWidth]⟩
+
+/-- GCN3 `s_movk_i32` (format 1, opcode 0): the handler the opcode switch selects has, for every input, exactly the effect the ISA prescribes. -/
+theorem gcn3_s_movk_i32_conforms : ConformsTo Gen.gcn3.dispatch 1 0 32 Spec.s_movk_i32 :=
+  ⟨_, rfl, by
+    intro i
+    simp only [Gen.gcn3.run_SMOVKI32, Spec.s_movk_i32, Spec.imm32, and_mask16, ScalarOut.norm, Option.map, keep32, Spec.ret32n, Spec.w32, trunc_sext16, trunc_zext16]⟩
+
+/-- GCN3 `s_cmovk_i32` (format 1, opcode 1): the handler the opcode switch selects has, for every architectural input (SCC one bit), exactly the effect the ISA prescribes. -/
+theorem gcn3_s_cmovk_i32_conforms : ConformsArch Gen.gcn3.dispatch 1 1 32 Spec.s_cmovk_i32 :=
+  conformsArch_iff_conformsScc.mpr
+  ⟨_, rfl, by
+    intro i hs
+    rcases hs with hs | hs <;>
+    simp [hs, Gen.gcn3.run_SCMOVKI32, Spec.s_cmovk_i32, Spec.imm32, and_mask16, ScalarOut.norm, keep32, Spec.ret32n, Spec.w32, trunc_sext16, Spec.nothing, ScalarOut.nothing]⟩
 
 /-- GCN3 `s_cmpk_eq_i32` (format 1, opcode 2): the handler the opcode switch selects has, for every input, exactly the effect the ISA prescribes. -/
 theorem gcn3_s_cmpk_eq_i32_conforms : ConformsTo Gen.gcn3.dispatch 1 2 32 Spec.s_cmpk_eq_i32 :=
@@ -182,6 +228,12 @@ theorem gcn3_s_cmpk_eq_i32_conforms : ConformsTo Gen.gcn3.dispatch 1 2 32 Spec.s
 /-- GCN3 `s_cmpk_lg_i32` (format 1, opcode 3): the handler the opcode switch selects has, for every input, exactly the effect the ISA prescribes. -/
 theorem gcn3_s_cmpk_lg_i32_conforms : ConformsTo Gen.gcn3.dispatch 1 3 32 Spec.s_cmpk_lg_i32 :=
   ⟨_, rfl, by conform Gen.gcn3.run_SCMPKLGI32 Spec.s_cmpk_lg_i32⟩
+
+/-- GCN3 `s_mulk_i32` (format 1, opcode 15): the handler the opcode switch selects has, for every input, exactly the effect the ISA prescribes. -/
+theorem gcn3_s_mulk_i32_conforms : ConformsTo Gen.gcn3.dispatch 1 15 32 Spec.s_mulk_i32 :=
+  ⟨_, rfl, by
+    intro i
+    simp only [Gen.gcn3.run_SMULKI32, Spec.s_mulk_i32, Spec.imm32, Spec.lo, and_mask16, ScalarOut.norm, Option.map, keep32, Spec.ret32n, Spec.w32, trunc_sext32, trunc_zext16, BitVec.mul_comm]⟩
 
 /-- GCN3 `s_mov_b32` (format 2, opcode 0): the handler the opcode switch selects has, for every input, exactly the effect the ISA prescribes. -/
 theorem gcn3_s_mov_b32_conforms : ConformsTo Gen.gcn3.dispatch 2 0 32 Spec.s_mov_b32 :=
@@ -194,6 +246,14 @@ theorem gcn3_s_mov_b64_conforms : ConformsTo Gen.gcn3.dispatch 2 1 64 Spec.s_mov
 /-- GCN3 `s_not_b32` (format 2, opcode 4): the handler the opcode switch selects has, for every input, exactly the effect the ISA prescribes. -/
 theorem gcn3_s_not_b32_conforms : ConformsTo Gen.gcn3.dispatch 2 4 32 Spec.s_not_b32 :=
   ⟨_, rfl, by conform Gen.gcn3.run_SNOTU32 Spec.s_not_b32⟩
+
+/-- GCN3 `s_brev_b32` (format 2, opcode 8; hand-modelled `for` loop, `C03S_Hand.lean`): after its 32 iterations the loop has built exactly the bit reversal the ISA prescribes, for every input. -/
+theorem gcn3_s_brev_b32_conforms : ConformsTo Hand.gcn3.dispatch 2 8 32 Spec.s_brev_b32 :=
+  ⟨_, rfl, by
+    intro i
+    show (Spec.ret32n (Hand.gcn3.brevLoop (Spec.lo i.src0) 32)).norm 32 = _
+    rw [norm_ret32n, gcn3_brevLoop_eq]
+    rfl⟩
 
 /-- GCN3 `s_getpc_b64` (format 2, opcode 28): the handler the opcode switch selects has, for every input, exactly the effect the ISA prescribes. -/
 theorem gcn3_s_getpc_b64_conforms : ConformsTo Gen.gcn3.dispatch 2 28 64 Spec.s_getpc_b64 :=
@@ -230,6 +290,13 @@ theorem gcn3_s_nor_saveexec_b64_conforms : ConformsTo Gen.gcn3.dispatch 2 38 64 
 /-- GCN3 `s_xnor_saveexec_b64` (format 2, opcode 39): the handler the opcode switch selects has, for every input, exactly the effect the ISA prescribes. -/
 theorem gcn3_s_xnor_saveexec_b64_conforms : ConformsTo Gen.gcn3.dispatch 2 39 64 Spec.s_xnor_saveexec_b64 :=
   ⟨_, rfl, by conform Gen.gcn3.run_SNXORSAVEEXECB64 Spec.s_xnor_saveexec_b64⟩
+
+/-- GCN3 `s_abs_i32` (format 2, opcode 48): the handler the opcode switch selects has, for every input, exactly the effect the ISA prescribes. -/
+theorem gcn3_s_abs_i32_conforms : ConformsTo Gen.gcn3.dispatch 2 48 32 Spec.s_abs_i32 :=
+  ⟨_, rfl, by
+    intro i
+    simp only [Gen.gcn3.run_SABSI32, Spec.s_abs_i32, Spec.lo, ret32_ite]
+    split <;> rename_i h <;> simp only [h, norm_ret32, if_true, if_false, Bool.false_eq_true]⟩
 
 /-- GCN3 `s_cmp_eq_i32` (format 3, opcode 0): the handler the opcode switch selects has, for every input, exactly the effect the ISA prescribes. -/
 theorem gcn3_s_cmp_eq_i32_conforms : ConformsTo Gen.gcn3.dispatch 3 0 0 Spec.s_cmp_eq_i32 :=
@@ -279,13 +346,15 @@ theorem gcn3_s_nop_conforms : ConformsTo Gen.gcn3.dispatch 4 0 0 Spec.s_nop :=
 theorem gcn3_s_branch_conforms : ConformsTo Gen.gcn3.dispatch 4 2 0 Spec.s_branch :=
   ⟨_, rfl, by conform Gen.gcn3.run_SCBRANCH Spec.s_branch⟩
 
-/-- GCN3 `s_cbranch_scc0` (format 4, opcode 4): the handler the opcode switch selects has, for every input, exactly the effect the ISA prescribes. -/
-theorem gcn3_s_cbranch_scc0_conforms : ConformsScc Gen.gcn3.dispatch 4 4 0 Spec.s_cbranch_scc0 :=
-  ⟨_, rfl, by conformS Gen.gcn3.run_SCBRANCHSCC0 Spec.s_cbranch_scc0⟩
+/-- GCN3 `s_cbranch_scc0` (format 4, opcode 4): the handler the opcode switch selects has, for every architectural input (SCC one bit), exactly the effect the ISA prescribes. -/
+theorem gcn3_s_cbranch_scc0_conforms : ConformsArch Gen.gcn3.dispatch 4 4 0 Spec.s_cbranch_scc0 :=
+  conformsArch_iff_conformsScc.mpr
+    ⟨_, rfl, by conformS Gen.gcn3.run_SCBRANCHSCC0 Spec.s_cbranch_scc0⟩
 
-/-- GCN3 `s_cbranch_scc1` (format 4, opcode 5): the handler the opcode switch selects has, for every input, exactly the effect the ISA prescribes. -/
-theorem gcn3_s_cbranch_scc1_conforms : ConformsScc Gen.gcn3.dispatch 4 5 0 Spec.s_cbranch_scc1 :=
-  ⟨_, rfl, by conformS Gen.gcn3.run_SCBRANCHSCC1 Spec.s_cbranch_scc1⟩
+/-- GCN3 `s_cbranch_scc1` (format 4, opcode 5): the handler the opcode switch selects has, for every architectural input (SCC one bit), exactly the effect the ISA prescribes. -/
+theorem gcn3_s_cbranch_scc1_conforms : ConformsArch Gen.gcn3.dispatch 4 5 0 Spec.s_cbranch_scc1 :=
+  conformsArch_iff_conformsScc.mpr
+    ⟨_, rfl, by conformS Gen.gcn3.run_SCBRANCHSCC1 Spec.s_cbranch_scc1⟩
 
 /-- GCN3 `s_cbranch_vccz` (format 4, opcode 6): the handler the opcode switch selects has, for every input, exactly the effect the ISA prescribes. -/
 theorem gcn3_s_cbranch_vccz_conforms : ConformsTo Gen.gcn3.dispatch 4 6 0 Spec.s_cbranch_vccz :=
@@ -315,13 +384,27 @@ theorem cdna3_s_add_u32_conforms : ConformsTo Gen.cdna3.dispatch 0 0 32 Spec.s_a
 theorem cdna3_s_sub_u32_conforms : ConformsTo Gen.cdna3.dispatch 0 1 32 Spec.s_sub_u32 :=
   ⟨_, rfl, by conform Gen.cdna3.run_SSUBU32 Spec.s_sub_u32⟩
 
-/-- CDNA3 `s_addc_u32` (format 0, opcode 4): the handler the opcode switch selects has, for every input, exactly the effect the ISA prescribes. -/
-theorem cdna3_s_addc_u32_conforms : ConformsScc Gen.cdna3.dispatch 0 4 32 Spec.s_addc_u32 :=
-  ⟨_, rfl, by conformS Gen.cdna3.run_SADDCU32 Spec.s_addc_u32⟩
+/-- CDNA3 `s_add_i32` (format 0, opcode 2): the handler the opcode switch selects has, for every input, exactly the effect the ISA prescribes. -/
+theorem cdna3_s_add_i32_conforms : ConformsTo Gen.cdna3.dispatch 0 2 32 Spec.s_add_i32 :=
+  ⟨_, rfl, by
+    intro i
+    simp only [Gen.cdna3.run_SADDI32, Spec.s_add_i32, Spec.lo, ovf_add_c, sext_add_trunc, ret32_ite_b, norm_ret32]⟩
 
-/-- CDNA3 `s_subb_u32` (format 0, opcode 5): the handler the opcode switch selects has, for every input, exactly the effect the ISA prescribes. -/
-theorem cdna3_s_subb_u32_conforms : ConformsScc Gen.cdna3.dispatch 0 5 32 Spec.s_subb_u32 :=
-  ⟨_, rfl, by conformS Gen.cdna3.run_SSUBBU32 Spec.s_subb_u32⟩
+/-- CDNA3 `s_sub_i32` (format 0, opcode 3): the handler the opcode switch selects has, for every input, exactly the effect the ISA prescribes. -/
+theorem cdna3_s_sub_i32_conforms : ConformsTo Gen.cdna3.dispatch 0 3 32 Spec.s_sub_i32 :=
+  ⟨_, rfl, by
+    intro i
+    simp only [Gen.cdna3.run_SSUBI32, Spec.s_sub_i32, Spec.lo, ovf_sub_c, sext_sub_trunc, ret32_ite_b, norm_ret32]⟩
+
+/-- CDNA3 `s_addc_u32` (format 0, opcode 4): the handler the opcode switch selects has, for every architectural input (SCC one bit), exactly the effect the ISA prescribes. -/
+theorem cdna3_s_addc_u32_conforms : ConformsArch Gen.cdna3.dispatch 0 4 32 Spec.s_addc_u32 :=
+  conformsArch_iff_conformsScc.mpr
+    ⟨_, rfl, by conformS Gen.cdna3.run_SADDCU32 Spec.s_addc_u32⟩
+
+/-- CDNA3 `s_subb_u32` (format 0, opcode 5): the handler the opcode switch selects has, for every architectural input (SCC one bit), exactly the effect the ISA prescribes. -/
+theorem cdna3_s_subb_u32_conforms : ConformsArch Gen.cdna3.dispatch 0 5 32 Spec.s_subb_u32 :=
+  conformsArch_iff_conformsScc.mpr
+    ⟨_, rfl, by conformS Gen.cdna3.run_SSUBBU32 Spec.s_subb_u32⟩
 
 /-- CDNA3 `s_min_i32` (format 0, opcode 6): the handler the opcode switch selects has, for every input, exactly the effect the ISA prescribes. -/
 theorem cdna3_s_min_i32_conforms : ConformsTo Gen.cdna3.dispatch 0 6 32 Spec.s_min_i32 :=
@@ -339,13 +422,15 @@ theorem cdna3_s_max_i32_conforms : ConformsTo Gen.cdna3.dispatch 0 8 32 Spec.s_m
 theorem cdna3_s_max_u32_conforms : ConformsTo Gen.cdna3.dispatch 0 9 32 Spec.s_max_u32 :=
   ⟨_, rfl, by conform Gen.cdna3.run_SMAXU32 Spec.s_max_u32⟩
 
-/-- CDNA3 `s_cselect_b32` (format 0, opcode 10): the handler the opcode switch selects has, for every input, exactly the effect the ISA prescribes. -/
-theorem cdna3_s_cselect_b32_conforms : ConformsScc Gen.cdna3.dispatch 0 10 32 Spec.s_cselect_b32 :=
-  ⟨_, rfl, by conformS Gen.cdna3.run_SCSELECTB32 Spec.s_cselect_b32⟩
+/-- CDNA3 `s_cselect_b32` (format 0, opcode 10): the handler the opcode switch selects has, for every architectural input (SCC one bit), exactly the effect the ISA prescribes. -/
+theorem cdna3_s_cselect_b32_conforms : ConformsArch Gen.cdna3.dispatch 0 10 32 Spec.s_cselect_b32 :=
+  conformsArch_iff_conformsScc.mpr
+    ⟨_, rfl, by conformS Gen.cdna3.run_SCSELECTB32 Spec.s_cselect_b32⟩
 
-/-- CDNA3 `s_cselect_b64` (format 0, opcode 11): the handler the opcode switch selects has, for every input, exactly the effect the ISA prescribes. -/
-theorem cdna3_s_cselect_b64_conforms : ConformsScc Gen.cdna3.dispatch 0 11 64 Spec.s_cselect_b64 :=
-  ⟨_, rfl, by conformS Gen.cdna3.run_SCSELECTB64 Spec.s_cselect_b64⟩
+/-- CDNA3 `s_cselect_b64` (format 0, opcode 11): the handler the opcode switch selects has, for every architectural input (SCC one bit), exactly the effect the ISA prescribes. -/
+theorem cdna3_s_cselect_b64_conforms : ConformsArch Gen.cdna3.dispatch 0 11 64 Spec.s_cselect_b64 :=
+  conformsArch_iff_conformsScc.mpr
+    ⟨_, rfl, by conformS Gen.cdna3.run_SCSELECTB64 Spec.s_cselect_b64⟩
 
 /-- CDNA3 `s_and_b32` (format 0, opcode 12): the handler the opcode switch selects has, for every input, exactly the effect the ISA prescribes. -/
 theorem cdna3_s_and_b32_conforms : ConformsTo Gen.cdna3.dispatch 0 12 32 Spec.s_and_b32 :=
@@ -395,6 +480,12 @@ theorem cdna3_s_lshl_b32_conforms : ConformsTo Gen.cdna3.dispatch 0 28 32 Spec.s
 theorem cdna3_s_lshl_b64_conforms : ConformsTo Gen.cdna3.dispatch 0 29 64 Spec.s_lshl_b64 :=
   ⟨_, rfl, by conform Gen.cdna3.run_SLSHLB64 Spec.s_lshl_b64⟩
 
+/-- CDNA3 `s_lshr_b32` (format 0, opcode 30): the handler the opcode switch selects has, for every input, exactly the effect the ISA prescribes. -/
+theorem cdna3_s_lshr_b32_conforms : ConformsTo Gen.cdna3.dispatch 0 30 32 Spec.s_lshr_b32 :=
+  ⟨_, rfl, by
+    intro i
+    simp only [Gen.cdna3.run_SLSHRB32, Spec.s_lshr_b32, Spec.logic32, Spec.lo, and31_toNat, w64_bne_zero, ret32_ite, norm_ret32]⟩
+
 /-- CDNA3 `s_lshr_b64` (format 0, opcode 31): the handler the opcode switch selects has, for every input, exactly the effect the ISA prescribes. -/
 theorem cdna3_s_lshr_b64_conforms : ConformsTo Gen.cdna3.dispatch 0 31 64 Spec.s_lshr_b64 :=
   ⟨_, rfl, by conform Gen.cdna3.run_SLSHRB64 Spec.s_lshr_b64⟩
@@ -407,17 +498,62 @@ theorem cdna3_s_ashr_i32_conforms : ConformsTo Gen.cdna3.dispatch 0 32 32 Spec.s
 theorem cdna3_s_ashr_i64_conforms : ConformsTo Gen.cdna3.dispatch 0 33 64 Spec.s_ashr_i64 :=
   ⟨_, rfl, by conform Gen.cdna3.run_SASHRI64 Spec.s_ashr_i64⟩
 
+/-- CDNA3 `s_bfm_b32` (format 0, opcode 34): the handler the opcode switch selects has, for every input, exactly the effect the ISA prescribes. -/
+theorem cdna3_s_bfm_b32_conforms : ConformsTo Gen.cdna3.dispatch 0 34 32 Spec.s_bfm_b32 :=
+  ⟨_, rfl, by
+    intro i
+    simp only [Gen.cdna3.run_SBFMB32, Spec.s_bfm_b32, Spec.lo, and31_toNat, and_mask32, ScalarOut.norm, Option.map, keep32, trunc_zext32,
+      BitVec.setWidth_shiftLeft_of_le (show 32 ≤ 64 by decide), trunc_sub, one64_trunc, Spec.ret32n, Spec.w32]⟩
+
 /-- CDNA3 `s_mul_i32` (format 0, opcode 36): the handler the opcode switch selects has, for every input, exactly the effect the ISA prescribes. -/
 theorem cdna3_s_mul_i32_conforms : ConformsTo Gen.cdna3.dispatch 0 36 32 Spec.s_mul_i32 :=
   ⟨_, rfl, by conform Gen.cdna3.run_SMULI32 Spec.s_mul_i32⟩
+
+/-- CDNA3 `s_bfe_u32` (format 0, opcode 37): the handler the opcode switch selects has, for every input, exactly the effect the ISA prescribes. -/
+theorem cdna3_s_bfe_u32_conforms : ConformsTo Gen.cdna3.dispatch 0 37 32 Spec.s_bfe_u32 :=
+  ⟨_, rfl, by
+    intro i
+    simp only [Gen.cdna3.run_SBFEU32, toNat_16_64, and_mask32, bfeU_cdna3, and31_toNat, beq_zero64, width7_toNat,
+      w64_bne_zero, ret32_ite, Spec.s_bfe_u32, Spec.lo, Spec.bfeOffset, Spec.bfeWidth]
+    split
+    · rename_i h
+      have h' := of_decide_eq_true h
+      simp only [h', Nat.pow_zero, Nat.mod_one]
+      rfl
+    · exact norm_ret32 _ _⟩
+
+/-- CDNA3 `s_bfe_i32` (format 0, opcode 38): the handler the opcode switch selects has, for every input, exactly the effect the ISA prescribes. -/
+theorem cdna3_s_bfe_i32_conforms : ConformsTo Gen.cdna3.dispatch 0 38 32 Spec.s_bfe_i32 :=
+  ⟨_, rfl, by
+    intro i
+    have hWn := width7_toNat i.src1
+    have ho : (BitVec.setWidth 32 i.src1).toNat % 32 < 32 := Nat.mod_lt _ (by decide)
+    simp only [Gen.cdna3.run_SBFEI32, toNat_16_64, beq_zero64, and31_toNat, shr_and_one, sccOf64_ite]
+    rw [spec_bfe_i32_eq]
+    simp only [Spec.lo, Spec.bfeOffset, Spec.bfeWidth, ← hWn]
+    generalize ((i.src1 >>> 16) &&& 127#64) = W at *
+    by_cases hz : W.toNat = 0
+    · simp only [hz, decide_true, if_true, bfeI_zero]
+      rfl
+    · simp only [hz, decide_false, Bool.false_eq_true, if_false, sub_one_toNat64 W (by omega)]
+      rw [← apply_ite sccOf64, norm_sccOf64]
+      have h := bfeI_cdna3 (BitVec.setWidth 32 i.src0) _ W.toNat ho (by omega)
+      rw [h.2, h.1]⟩
+
+/-- CDNA3 `s_mul_hi_u32` (format 0, opcode 44): the handler the opcode switch selects has, for every input, exactly the effect the ISA prescribes. -/
+theorem cdna3_s_mul_hi_u32_conforms : ConformsTo Gen.cdna3.dispatch 0 44 32 Spec.s_mul_hi_u32 :=
+  ⟨_, rfl, by
+    intro i
+    simp only [Gen.cdna3.run_SMULHIU32, Spec.s_mul_hi_u32, Spec.lo, and_mask32, ScalarOut.norm, Option.map, keep32, toNat_32_64, mulhi, Spec.ret32n, Spec.w32]⟩
 
 /-- CDNA3 `s_movk_i32` (format 1, opcode 0): the handler the opcode switch selects has, for every input, exactly the effect the ISA prescribes. -/
 theorem cdna3_s_movk_i32_conforms : ConformsTo Gen.cdna3.dispatch 1 0 32 Spec.s_movk_i32 :=
   ⟨_, rfl, by conform Gen.cdna3.run_SMOVKI32 Spec.s_movk_i32⟩
 
-/-- CDNA3 `s_cmovk_i32` (format 1, opcode 1): the handler the opcode switch selects has, for every input, exactly the effect the ISA prescribes. -/
-theorem cdna3_s_cmovk_i32_conforms : ConformsScc Gen.cdna3.dispatch 1 1 32 Spec.s_cmovk_i32 :=
-  ⟨_, rfl, by conformS Gen.cdna3.run_SCMOVKI32 Spec.s_cmovk_i32⟩
+/-- CDNA3 `s_cmovk_i32` (format 1, opcode 1): the handler the opcode switch selects has, for every architectural input (SCC one bit), exactly the effect the ISA prescribes. -/
+theorem cdna3_s_cmovk_i32_conforms : ConformsArch Gen.cdna3.dispatch 1 1 32 Spec.s_cmovk_i32 :=
+  conformsArch_iff_conformsScc.mpr
+    ⟨_, rfl, by conformS Gen.cdna3.run_SCMOVKI32 Spec.s_cmovk_i32⟩
 
 /-- CDNA3 `s_cmpk_eq_i32` (format 1, opcode 2): the handler the opcode switch selects has, for every input, exactly the effect the ISA prescribes. -/
 theorem cdna3_s_cmpk_eq_i32_conforms : ConformsTo Gen.cdna3.dispatch 1 2 32 Spec.s_cmpk_eq_i32 :=
@@ -442,6 +578,14 @@ theorem cdna3_s_mov_b64_conforms : ConformsTo Gen.cdna3.dispatch 2 1 64 Spec.s_m
 /-- CDNA3 `s_not_b32` (format 2, opcode 4): the handler the opcode switch selects has, for every input, exactly the effect the ISA prescribes. -/
 theorem cdna3_s_not_b32_conforms : ConformsTo Gen.cdna3.dispatch 2 4 32 Spec.s_not_b32 :=
   ⟨_, rfl, by conform Gen.cdna3.run_SNOTU32 Spec.s_not_b32⟩
+
+/-- CDNA3 `s_brev_b32` (format 2, opcode 8; hand-modelled `for` loop, `C03S_Hand.lean`): after its 32 iterations the loop has built exactly the bit reversal the ISA prescribes, for every input. -/
+theorem cdna3_s_brev_b32_conforms : ConformsTo Hand.cdna3.dispatch 2 8 32 Spec.s_brev_b32 :=
+  ⟨_, rfl, by
+    intro i
+    show (Spec.ret32n (Hand.cdna3.brevLoop (Spec.lo i.src0) 32)).norm 32 = _
+    rw [norm_ret32n, cdna3_brevLoop_eq]
+    rfl⟩
 
 /-- CDNA3 `s_getpc_b64` (format 2, opcode 28): the handler the opcode switch selects has, for every input, exactly the effect the ISA prescribes. -/
 theorem cdna3_s_getpc_b64_conforms : ConformsTo Gen.cdna3.dispatch 2 28 64 Spec.s_getpc_b64 :=
@@ -478,6 +622,13 @@ theorem cdna3_s_nor_saveexec_b64_conforms : ConformsTo Gen.cdna3.dispatch 2 38 6
 /-- CDNA3 `s_xnor_saveexec_b64` (format 2, opcode 39): the handler the opcode switch selects has, for every input, exactly the effect the ISA prescribes. -/
 theorem cdna3_s_xnor_saveexec_b64_conforms : ConformsTo Gen.cdna3.dispatch 2 39 64 Spec.s_xnor_saveexec_b64 :=
   ⟨_, rfl, by conform Gen.cdna3.run_SNXORSAVEEXECB64 Spec.s_xnor_saveexec_b64⟩
+
+/-- CDNA3 `s_abs_i32` (format 2, opcode 48): the handler the opcode switch selects has, for every input, exactly the effect the ISA prescribes. -/
+theorem cdna3_s_abs_i32_conforms : ConformsTo Gen.cdna3.dispatch 2 48 32 Spec.s_abs_i32 :=
+  ⟨_, rfl, by
+    intro i
+    simp only [Gen.cdna3.run_SABSI32, Spec.s_abs_i32, Spec.lo, ret32_ite]
+    split <;> rename_i h <;> simp only [h, norm_ret32, if_true, if_false, Bool.false_eq_true]⟩
 
 /-- CDNA3 `s_cmp_eq_i32` (format 3, opcode 0): the handler the opcode switch selects has, for every input, exactly the effect the ISA prescribes. -/
 theorem cdna3_s_cmp_eq_i32_conforms : ConformsTo Gen.cdna3.dispatch 3 0 0 Spec.s_cmp_eq_i32 :=
@@ -535,13 +686,15 @@ theorem cdna3_s_nop_conforms : ConformsTo Gen.cdna3.dispatch 4 0 0 Spec.s_nop :=
 theorem cdna3_s_branch_conforms : ConformsTo Gen.cdna3.dispatch 4 2 0 Spec.s_branch :=
   ⟨_, rfl, by conform Gen.cdna3.run_SCBRANCH Spec.s_branch⟩
 
-/-- CDNA3 `s_cbranch_scc0` (format 4, opcode 4): the handler the opcode switch selects has, for every input, exactly the effect the ISA prescribes. -/
-theorem cdna3_s_cbranch_scc0_conforms : ConformsScc Gen.cdna3.dispatch 4 4 0 Spec.s_cbranch_scc0 :=
-  ⟨_, rfl, by conformS Gen.cdna3.run_SCBRANCHSCC0 Spec.s_cbranch_scc0⟩
+/-- CDNA3 `s_cbranch_scc0` (format 4, opcode 4): the handler the opcode switch selects has, for every architectural input (SCC one bit), exactly the effect the ISA prescribes. -/
+theorem cdna3_s_cbranch_scc0_conforms : ConformsArch Gen.cdna3.dispatch 4 4 0 Spec.s_cbranch_scc0 :=
+  conformsArch_iff_conformsScc.mpr
+    ⟨_, rfl, by conformS Gen.cdna3.run_SCBRANCHSCC0 Spec.s_cbranch_scc0⟩
 
-/-- CDNA3 `s_cbranch_scc1` (format 4, opcode 5): the handler the opcode switch selects has, for every input, exactly the effect the ISA prescribes. -/
-theorem cdna3_s_cbranch_scc1_conforms : ConformsScc Gen.cdna3.dispatch 4 5 0 Spec.s_cbranch_scc1 :=
-  ⟨_, rfl, by conformS Gen.cdna3.run_SCBRANCHSCC1 Spec.s_cbranch_scc1⟩
+/-- CDNA3 `s_cbranch_scc1` (format 4, opcode 5): the handler the opcode switch selects has, for every architectural input (SCC one bit), exactly the effect the ISA prescribes. -/
+theorem cdna3_s_cbranch_scc1_conforms : ConformsArch Gen.cdna3.dispatch 4 5 0 Spec.s_cbranch_scc1 :=
+  conformsArch_iff_conformsScc.mpr
+    ⟨_, rfl, by conformS Gen.cdna3.run_SCBRANCHSCC1 Spec.s_cbranch_scc1⟩
 
 /-- CDNA3 `s_cbranch_vccz` (format 4, opcode 6): the handler the opcode switch selects has, for every input, exactly the effect the ISA prescribes. -/
 theorem cdna3_s_cbranch_vccz_conforms : ConformsTo Gen.cdna3.dispatch 4 6 0 Spec.s_cbranch_vccz :=
@@ -563,7 +716,9 @@ theorem cdna3_s_cbranch_execnz_conforms : ConformsTo Gen.cdna3.dispatch 4 9 0 Sp
 theorem cdna3_s_waitcnt_conforms : ConformsTo Gen.cdna3.dispatch 4 12 0 Spec.s_waitcnt :=
   ⟨_, rfl, by intro i; first | rfl | (intro _; rfl)⟩
 
-/-! ## The two ALUs agree wherever both implement an opcode (both manuals define these opcodes identically) -/
+/-! ## The two ALUs agree wherever both implement an opcode (both manuals define these opcodes identically)
+
+`Agree`: on every input record; `AgreeArch` (SCC readers): on every architectural input. -/
 
 /-- `s_add_u32`: `emu.ALUImpl` and `cdna3.ALU` have the same architectural effect on every input. -/
 theorem alu_agree_s_add_u32 : Agree 0 0 32 := agree_of_conforms gcn3_s_add_u32_conforms cdna3_s_add_u32_conforms
@@ -571,11 +726,17 @@ theorem alu_agree_s_add_u32 : Agree 0 0 32 := agree_of_conforms gcn3_s_add_u32_c
 /-- `s_sub_u32`: `emu.ALUImpl` and `cdna3.ALU` have the same architectural effect on every input. -/
 theorem alu_agree_s_sub_u32 : Agree 0 1 32 := agree_of_conforms gcn3_s_sub_u32_conforms cdna3_s_sub_u32_conforms
 
-/-- `s_addc_u32`: `emu.ALUImpl` and `cdna3.ALU` have the same architectural effect on every input. -/
-theorem alu_agree_s_addc_u32 : Agree 0 4 32 := agree_of_conformsScc gcn3_s_addc_u32_conforms cdna3_s_addc_u32_conforms
+/-- `s_add_i32`: `emu.ALUImpl` and `cdna3.ALU` have the same architectural effect on every input. -/
+theorem alu_agree_s_add_i32 : Agree 0 2 32 := agree_of_conforms gcn3_s_add_i32_conforms cdna3_s_add_i32_conforms
 
-/-- `s_subb_u32`: `emu.ALUImpl` and `cdna3.ALU` have the same architectural effect on every input. -/
-theorem alu_agree_s_subb_u32 : Agree 0 5 32 := agree_of_conformsScc gcn3_s_subb_u32_conforms cdna3_s_subb_u32_conforms
+/-- `s_sub_i32`: `emu.ALUImpl` and `cdna3.ALU` have the same architectural effect on every input. -/
+theorem alu_agree_s_sub_i32 : Agree 0 3 32 := agree_of_conforms gcn3_s_sub_i32_conforms cdna3_s_sub_i32_conforms
+
+/-- `s_addc_u32`: `emu.ALUImpl` and `cdna3.ALU` have the same architectural effect on every architectural input (SCC one bit). -/
+theorem alu_agree_s_addc_u32 : AgreeArch 0 4 32 := agree_of_conformsArch gcn3_s_addc_u32_conforms cdna3_s_addc_u32_conforms
+
+/-- `s_subb_u32`: `emu.ALUImpl` and `cdna3.ALU` have the same architectural effect on every architectural input (SCC one bit). -/
+theorem alu_agree_s_subb_u32 : AgreeArch 0 5 32 := agree_of_conformsArch gcn3_s_subb_u32_conforms cdna3_s_subb_u32_conforms
 
 /-- `s_min_i32`: `emu.ALUImpl` and `cdna3.ALU` have the same architectural effect on every input. -/
 theorem alu_agree_s_min_i32 : Agree 0 6 32 := agree_of_conforms gcn3_s_min_i32_conforms cdna3_s_min_i32_conforms
@@ -589,8 +750,8 @@ theorem alu_agree_s_max_i32 : Agree 0 8 32 := agree_of_conforms gcn3_s_max_i32_c
 /-- `s_max_u32`: `emu.ALUImpl` and `cdna3.ALU` have the same architectural effect on every input. -/
 theorem alu_agree_s_max_u32 : Agree 0 9 32 := agree_of_conforms gcn3_s_max_u32_conforms cdna3_s_max_u32_conforms
 
-/-- `s_cselect_b32`: `emu.ALUImpl` and `cdna3.ALU` have the same architectural effect on every input. -/
-theorem alu_agree_s_cselect_b32 : Agree 0 10 32 := agree_of_conformsScc gcn3_s_cselect_b32_conforms cdna3_s_cselect_b32_conforms
+/-- `s_cselect_b32`: `emu.ALUImpl` and `cdna3.ALU` have the same architectural effect on every architectural input (SCC one bit). -/
+theorem alu_agree_s_cselect_b32 : AgreeArch 0 10 32 := agree_of_conformsArch gcn3_s_cselect_b32_conforms cdna3_s_cselect_b32_conforms
 
 /-- `s_and_b32`: `emu.ALUImpl` and `cdna3.ALU` have the same architectural effect on every input. -/
 theorem alu_agree_s_and_b32 : Agree 0 12 32 := agree_of_conforms gcn3_s_and_b32_conforms cdna3_s_and_b32_conforms
@@ -616,20 +777,38 @@ theorem alu_agree_s_lshl_b32 : Agree 0 28 32 := agree_of_conforms gcn3_s_lshl_b3
 /-- `s_lshl_b64`: `emu.ALUImpl` and `cdna3.ALU` have the same architectural effect on every input. -/
 theorem alu_agree_s_lshl_b64 : Agree 0 29 64 := agree_of_conforms gcn3_s_lshl_b64_conforms cdna3_s_lshl_b64_conforms
 
+/-- `s_lshr_b32`: `emu.ALUImpl` and `cdna3.ALU` have the same architectural effect on every input. -/
+theorem alu_agree_s_lshr_b32 : Agree 0 30 32 := agree_of_conforms gcn3_s_lshr_b32_conforms cdna3_s_lshr_b32_conforms
+
 /-- `s_lshr_b64`: `emu.ALUImpl` and `cdna3.ALU` have the same architectural effect on every input. -/
 theorem alu_agree_s_lshr_b64 : Agree 0 31 64 := agree_of_conforms gcn3_s_lshr_b64_conforms cdna3_s_lshr_b64_conforms
 
 /-- `s_ashr_i32`: `emu.ALUImpl` and `cdna3.ALU` have the same architectural effect on every input. -/
 theorem alu_agree_s_ashr_i32 : Agree 0 32 32 := agree_of_conforms gcn3_s_ashr_i32_conforms cdna3_s_ashr_i32_conforms
 
+/-- `s_bfm_b32`: `emu.ALUImpl` and `cdna3.ALU` have the same architectural effect on every input. -/
+theorem alu_agree_s_bfm_b32 : Agree 0 34 32 := agree_of_conforms gcn3_s_bfm_b32_conforms cdna3_s_bfm_b32_conforms
+
 /-- `s_mul_i32`: `emu.ALUImpl` and `cdna3.ALU` have the same architectural effect on every input. -/
 theorem alu_agree_s_mul_i32 : Agree 0 36 32 := agree_of_conforms gcn3_s_mul_i32_conforms cdna3_s_mul_i32_conforms
+
+/-- `s_bfe_i32`: `emu.ALUImpl` and `cdna3.ALU` have the same architectural effect on every input. -/
+theorem alu_agree_s_bfe_i32 : Agree 0 38 32 := agree_of_conforms gcn3_s_bfe_i32_conforms cdna3_s_bfe_i32_conforms
+
+/-- `s_movk_i32`: `emu.ALUImpl` and `cdna3.ALU` have the same architectural effect on every input. -/
+theorem alu_agree_s_movk_i32 : Agree 1 0 32 := agree_of_conforms gcn3_s_movk_i32_conforms cdna3_s_movk_i32_conforms
+
+/-- `s_cmovk_i32`: `emu.ALUImpl` and `cdna3.ALU` have the same architectural effect on every architectural input (SCC one bit). -/
+theorem alu_agree_s_cmovk_i32 : AgreeArch 1 1 32 := agree_of_conformsArch gcn3_s_cmovk_i32_conforms cdna3_s_cmovk_i32_conforms
 
 /-- `s_cmpk_eq_i32`: `emu.ALUImpl` and `cdna3.ALU` have the same architectural effect on every input. -/
 theorem alu_agree_s_cmpk_eq_i32 : Agree 1 2 32 := agree_of_conforms gcn3_s_cmpk_eq_i32_conforms cdna3_s_cmpk_eq_i32_conforms
 
 /-- `s_cmpk_lg_i32`: `emu.ALUImpl` and `cdna3.ALU` have the same architectural effect on every input. -/
 theorem alu_agree_s_cmpk_lg_i32 : Agree 1 3 32 := agree_of_conforms gcn3_s_cmpk_lg_i32_conforms cdna3_s_cmpk_lg_i32_conforms
+
+/-- `s_mulk_i32`: `emu.ALUImpl` and `cdna3.ALU` have the same architectural effect on every input. -/
+theorem alu_agree_s_mulk_i32 : Agree 1 15 32 := agree_of_conforms gcn3_s_mulk_i32_conforms cdna3_s_mulk_i32_conforms
 
 /-- `s_mov_b32`: `emu.ALUImpl` and `cdna3.ALU` have the same architectural effect on every input. -/
 theorem alu_agree_s_mov_b32 : Agree 2 0 32 := agree_of_conforms gcn3_s_mov_b32_conforms cdna3_s_mov_b32_conforms
@@ -639,6 +818,9 @@ theorem alu_agree_s_mov_b64 : Agree 2 1 64 := agree_of_conforms gcn3_s_mov_b64_c
 
 /-- `s_not_b32`: `emu.ALUImpl` and `cdna3.ALU` have the same architectural effect on every input. -/
 theorem alu_agree_s_not_b32 : Agree 2 4 32 := agree_of_conforms gcn3_s_not_b32_conforms cdna3_s_not_b32_conforms
+
+/-- `s_brev_b32`: `emu.ALUImpl` and `cdna3.ALU` have the same architectural effect on every input. -/
+theorem alu_agree_s_brev_b32 : AgreeOn Hand.gcn3.dispatch Hand.cdna3.dispatch 2 8 32 := agree_of_conforms gcn3_s_brev_b32_conforms cdna3_s_brev_b32_conforms
 
 /-- `s_getpc_b64`: `emu.ALUImpl` and `cdna3.ALU` have the same architectural effect on every input. -/
 theorem alu_agree_s_getpc_b64 : Agree 2 28 64 := agree_of_conforms gcn3_s_getpc_b64_conforms cdna3_s_getpc_b64_conforms
@@ -666,6 +848,9 @@ theorem alu_agree_s_nor_saveexec_b64 : Agree 2 38 64 := agree_of_conforms gcn3_s
 
 /-- `s_xnor_saveexec_b64`: `emu.ALUImpl` and `cdna3.ALU` have the same architectural effect on every input. -/
 theorem alu_agree_s_xnor_saveexec_b64 : Agree 2 39 64 := agree_of_conforms gcn3_s_xnor_saveexec_b64_conforms cdna3_s_xnor_saveexec_b64_conforms
+
+/-- `s_abs_i32`: `emu.ALUImpl` and `cdna3.ALU` have the same architectural effect on every input. -/
+theorem alu_agree_s_abs_i32 : Agree 2 48 32 := agree_of_conforms gcn3_s_abs_i32_conforms cdna3_s_abs_i32_conforms
 
 /-- `s_cmp_eq_i32`: `emu.ALUImpl` and `cdna3.ALU` have the same architectural effect on every input. -/
 theorem alu_agree_s_cmp_eq_i32 : Agree 3 0 0 := agree_of_conforms gcn3_s_cmp_eq_i32_conforms cdna3_s_cmp_eq_i32_conforms
@@ -703,11 +888,11 @@ theorem alu_agree_s_nop : Agree 4 0 0 := agree_of_conforms gcn3_s_nop_conforms c
 /-- `s_branch`: `emu.ALUImpl` and `cdna3.ALU` have the same architectural effect on every input. -/
 theorem alu_agree_s_branch : Agree 4 2 0 := agree_of_conforms gcn3_s_branch_conforms cdna3_s_branch_conforms
 
-/-- `s_cbranch_scc0`: `emu.ALUImpl` and `cdna3.ALU` have the same architectural effect on every input. -/
-theorem alu_agree_s_cbranch_scc0 : Agree 4 4 0 := agree_of_conformsScc gcn3_s_cbranch_scc0_conforms cdna3_s_cbranch_scc0_conforms
+/-- `s_cbranch_scc0`: `emu.ALUImpl` and `cdna3.ALU` have the same architectural effect on every architectural input (SCC one bit). -/
+theorem alu_agree_s_cbranch_scc0 : AgreeArch 4 4 0 := agree_of_conformsArch gcn3_s_cbranch_scc0_conforms cdna3_s_cbranch_scc0_conforms
 
-/-- `s_cbranch_scc1`: `emu.ALUImpl` and `cdna3.ALU` have the same architectural effect on every input. -/
-theorem alu_agree_s_cbranch_scc1 : Agree 4 5 0 := agree_of_conformsScc gcn3_s_cbranch_scc1_conforms cdna3_s_cbranch_scc1_conforms
+/-- `s_cbranch_scc1`: `emu.ALUImpl` and `cdna3.ALU` have the same architectural effect on every architectural input (SCC one bit). -/
+theorem alu_agree_s_cbranch_scc1 : AgreeArch 4 5 0 := agree_of_conformsArch gcn3_s_cbranch_scc1_conforms cdna3_s_cbranch_scc1_conforms
 
 /-- `s_cbranch_vccz`: `emu.ALUImpl` and `cdna3.ALU` have the same architectural effect on every input. -/
 theorem alu_agree_s_cbranch_vccz : Agree 4 6 0 := agree_of_conforms gcn3_s_cbranch_vccz_conforms cdna3_s_cbranch_vccz_conforms
@@ -723,6 +908,228 @@ theorem alu_agree_s_cbranch_execnz : Agree 4 9 0 := agree_of_conforms gcn3_s_cbr
 
 /-- `s_waitcnt`: `emu.ALUImpl` and `cdna3.ALU` have the same architectural effect on every input. -/
 theorem alu_agree_s_waitcnt : Agree 4 12 0 := agree_of_conforms gcn3_s_waitcnt_conforms cdna3_s_waitcnt_conforms
+
+/-! ## Coverage: every row of the regenerated dispatch tables has a theorem
+
+The theorem lists below carry the PROOFS (not names): an entry exists only if its
+`<arch>_<opcode>_conforms` theorem does and talks about the row's (format, opcode) and the ISA
+table's function for it.  `all_translated_handlers_have_a_theorem` compares the lists with the tables
+`translate/alu.go` regenerates on every run; a new or renumbered handler without a theorem makes it
+false (and the `#eval` guard in front of it prints the row, with the Go handler's name). -/
+
+/-- the conformance theorems of the GCN3 ALU, one per row of `Gen.gcn3.table` -/
+def gcn3Proved : List (Proved gcn3Dispatch) := [
+  ⟨0, 0, .ofArch _ rfl (gcn3_s_add_u32_conforms.toArch.mono (gen_sub_gcn3 0 0))⟩,
+  ⟨0, 1, .ofArch _ rfl (gcn3_s_sub_u32_conforms.toArch.mono (gen_sub_gcn3 0 1))⟩,
+  ⟨0, 2, .ofArch _ rfl (gcn3_s_add_i32_conforms.toArch.mono (gen_sub_gcn3 0 2))⟩,
+  ⟨0, 3, .ofArch _ rfl (gcn3_s_sub_i32_conforms.toArch.mono (gen_sub_gcn3 0 3))⟩,
+  ⟨0, 4, .ofArch _ rfl (gcn3_s_addc_u32_conforms.mono (gen_sub_gcn3 0 4))⟩,
+  ⟨0, 5, .ofArch _ rfl (gcn3_s_subb_u32_conforms.mono (gen_sub_gcn3 0 5))⟩,
+  ⟨0, 6, .ofArch _ rfl (gcn3_s_min_i32_conforms.toArch.mono (gen_sub_gcn3 0 6))⟩,
+  ⟨0, 7, .ofArch _ rfl (gcn3_s_min_u32_conforms.toArch.mono (gen_sub_gcn3 0 7))⟩,
+  ⟨0, 8, .ofArch _ rfl (gcn3_s_max_i32_conforms.toArch.mono (gen_sub_gcn3 0 8))⟩,
+  ⟨0, 9, .ofArch _ rfl (gcn3_s_max_u32_conforms.toArch.mono (gen_sub_gcn3 0 9))⟩,
+  ⟨0, 10, .ofArch _ rfl (gcn3_s_cselect_b32_conforms.mono (gen_sub_gcn3 0 10))⟩,
+  ⟨0, 12, .ofArch _ rfl (gcn3_s_and_b32_conforms.toArch.mono (gen_sub_gcn3 0 12))⟩,
+  ⟨0, 13, .ofArch _ rfl (gcn3_s_and_b64_conforms.toArch.mono (gen_sub_gcn3 0 13))⟩,
+  ⟨0, 15, .ofArch _ rfl (gcn3_s_or_b64_conforms.toArch.mono (gen_sub_gcn3 0 15))⟩,
+  ⟨0, 16, .ofArch _ rfl (gcn3_s_xor_b32_conforms.toArch.mono (gen_sub_gcn3 0 16))⟩,
+  ⟨0, 17, .ofArch _ rfl (gcn3_s_xor_b64_conforms.toArch.mono (gen_sub_gcn3 0 17))⟩,
+  ⟨0, 19, .ofArch _ rfl (gcn3_s_andn2_b64_conforms.toArch.mono (gen_sub_gcn3 0 19))⟩,
+  ⟨0, 28, .ofArch _ rfl (gcn3_s_lshl_b32_conforms.toArch.mono (gen_sub_gcn3 0 28))⟩,
+  ⟨0, 29, .ofArch _ rfl (gcn3_s_lshl_b64_conforms.toArch.mono (gen_sub_gcn3 0 29))⟩,
+  ⟨0, 30, .ofArch _ rfl (gcn3_s_lshr_b32_conforms.toArch.mono (gen_sub_gcn3 0 30))⟩,
+  ⟨0, 31, .ofArch _ rfl (gcn3_s_lshr_b64_conforms.toArch.mono (gen_sub_gcn3 0 31))⟩,
+  ⟨0, 32, .ofArch _ rfl (gcn3_s_ashr_i32_conforms.toArch.mono (gen_sub_gcn3 0 32))⟩,
+  ⟨0, 34, .ofArch _ rfl (gcn3_s_bfm_b32_conforms.toArch.mono (gen_sub_gcn3 0 34))⟩,
+  ⟨0, 36, .ofArch _ rfl (gcn3_s_mul_i32_conforms.toArch.mono (gen_sub_gcn3 0 36))⟩,
+  ⟨0, 38, .ofArch _ rfl (gcn3_s_bfe_i32_conforms.toArch.mono (gen_sub_gcn3 0 38))⟩,
+  ⟨1, 0, .ofArch _ rfl (gcn3_s_movk_i32_conforms.toArch.mono (gen_sub_gcn3 1 0))⟩,
+  ⟨1, 1, .ofArch _ rfl (gcn3_s_cmovk_i32_conforms.mono (gen_sub_gcn3 1 1))⟩,
+  ⟨1, 2, .ofArch _ rfl (gcn3_s_cmpk_eq_i32_conforms.toArch.mono (gen_sub_gcn3 1 2))⟩,
+  ⟨1, 3, .ofArch _ rfl (gcn3_s_cmpk_lg_i32_conforms.toArch.mono (gen_sub_gcn3 1 3))⟩,
+  ⟨1, 15, .ofArch _ rfl (gcn3_s_mulk_i32_conforms.toArch.mono (gen_sub_gcn3 1 15))⟩,
+  ⟨2, 0, .ofArch _ rfl (gcn3_s_mov_b32_conforms.toArch.mono (gen_sub_gcn3 2 0))⟩,
+  ⟨2, 1, .ofArch _ rfl (gcn3_s_mov_b64_conforms.toArch.mono (gen_sub_gcn3 2 1))⟩,
+  ⟨2, 4, .ofArch _ rfl (gcn3_s_not_b32_conforms.toArch.mono (gen_sub_gcn3 2 4))⟩,
+  ⟨2, 8, .ofArch _ rfl (gcn3_s_brev_b32_conforms.toArch.mono (hand_sub_gcn3 2 8 rfl))⟩,
+  ⟨2, 28, .ofArch _ rfl (gcn3_s_getpc_b64_conforms.toArch.mono (gen_sub_gcn3 2 28))⟩,
+  ⟨2, 32, .ofArch _ rfl (gcn3_s_and_saveexec_b64_conforms.toArch.mono (gen_sub_gcn3 2 32))⟩,
+  ⟨2, 33, .ofArch _ rfl (gcn3_s_or_saveexec_b64_conforms.toArch.mono (gen_sub_gcn3 2 33))⟩,
+  ⟨2, 34, .ofArch _ rfl (gcn3_s_xor_saveexec_b64_conforms.toArch.mono (gen_sub_gcn3 2 34))⟩,
+  ⟨2, 35, .ofArch _ rfl (gcn3_s_andn2_saveexec_b64_conforms.toArch.mono (gen_sub_gcn3 2 35))⟩,
+  ⟨2, 36, .ofArch _ rfl (gcn3_s_orn2_saveexec_b64_conforms.toArch.mono (gen_sub_gcn3 2 36))⟩,
+  ⟨2, 37, .ofArch _ rfl (gcn3_s_nand_saveexec_b64_conforms.toArch.mono (gen_sub_gcn3 2 37))⟩,
+  ⟨2, 38, .ofArch _ rfl (gcn3_s_nor_saveexec_b64_conforms.toArch.mono (gen_sub_gcn3 2 38))⟩,
+  ⟨2, 39, .ofArch _ rfl (gcn3_s_xnor_saveexec_b64_conforms.toArch.mono (gen_sub_gcn3 2 39))⟩,
+  ⟨2, 48, .ofArch _ rfl (gcn3_s_abs_i32_conforms.toArch.mono (gen_sub_gcn3 2 48))⟩,
+  ⟨3, 0, .ofArch _ rfl (gcn3_s_cmp_eq_i32_conforms.toArch.mono (gen_sub_gcn3 3 0))⟩,
+  ⟨3, 1, .ofArch _ rfl (gcn3_s_cmp_lg_i32_conforms.toArch.mono (gen_sub_gcn3 3 1))⟩,
+  ⟨3, 2, .ofArch _ rfl (gcn3_s_cmp_gt_i32_conforms.toArch.mono (gen_sub_gcn3 3 2))⟩,
+  ⟨3, 3, .ofArch _ rfl (gcn3_s_cmp_ge_i32_conforms.toArch.mono (gen_sub_gcn3 3 3))⟩,
+  ⟨3, 4, .ofArch _ rfl (gcn3_s_cmp_lt_i32_conforms.toArch.mono (gen_sub_gcn3 3 4))⟩,
+  ⟨3, 5, .ofArch _ rfl (gcn3_s_cmp_le_i32_conforms.toArch.mono (gen_sub_gcn3 3 5))⟩,
+  ⟨3, 6, .ofArch _ rfl (gcn3_s_cmp_eq_u32_conforms.toArch.mono (gen_sub_gcn3 3 6))⟩,
+  ⟨3, 7, .ofArch _ rfl (gcn3_s_cmp_lg_u32_conforms.toArch.mono (gen_sub_gcn3 3 7))⟩,
+  ⟨3, 8, .ofArch _ rfl (gcn3_s_cmp_gt_u32_conforms.toArch.mono (gen_sub_gcn3 3 8))⟩,
+  ⟨3, 10, .ofArch _ rfl (gcn3_s_cmp_lt_u32_conforms.toArch.mono (gen_sub_gcn3 3 10))⟩,
+  ⟨4, 0, .ofArch _ rfl (gcn3_s_nop_conforms.toArch.mono (gen_sub_gcn3 4 0))⟩,
+  ⟨4, 2, .ofArch _ rfl (gcn3_s_branch_conforms.toArch.mono (gen_sub_gcn3 4 2))⟩,
+  ⟨4, 4, .ofArch _ rfl (gcn3_s_cbranch_scc0_conforms.mono (gen_sub_gcn3 4 4))⟩,
+  ⟨4, 5, .ofArch _ rfl (gcn3_s_cbranch_scc1_conforms.mono (gen_sub_gcn3 4 5))⟩,
+  ⟨4, 6, .ofArch _ rfl (gcn3_s_cbranch_vccz_conforms.toArch.mono (gen_sub_gcn3 4 6))⟩,
+  ⟨4, 7, .ofArch _ rfl (gcn3_s_cbranch_vccnz_conforms.toArch.mono (gen_sub_gcn3 4 7))⟩,
+  ⟨4, 8, .ofArch _ rfl (gcn3_s_cbranch_execz_conforms.toArch.mono (gen_sub_gcn3 4 8))⟩,
+  ⟨4, 9, .ofArch _ rfl (gcn3_s_cbranch_execnz_conforms.toArch.mono (gen_sub_gcn3 4 9))⟩,
+  ⟨4, 12, .ofArch _ rfl (gcn3_s_waitcnt_conforms.toArch.mono (gen_sub_gcn3 4 12))⟩ ]
+
+/-- the conformance theorems of the CDNA3 ALU, one per row of `Gen.cdna3.table` -/
+def cdna3Proved : List (Proved cdna3Dispatch) := [
+  ⟨0, 0, .ofArch _ rfl (cdna3_s_add_u32_conforms.toArch.mono (gen_sub_cdna3 0 0))⟩,
+  ⟨0, 1, .ofArch _ rfl (cdna3_s_sub_u32_conforms.toArch.mono (gen_sub_cdna3 0 1))⟩,
+  ⟨0, 2, .ofArch _ rfl (cdna3_s_add_i32_conforms.toArch.mono (gen_sub_cdna3 0 2))⟩,
+  ⟨0, 3, .ofArch _ rfl (cdna3_s_sub_i32_conforms.toArch.mono (gen_sub_cdna3 0 3))⟩,
+  ⟨0, 4, .ofArch _ rfl (cdna3_s_addc_u32_conforms.mono (gen_sub_cdna3 0 4))⟩,
+  ⟨0, 5, .ofArch _ rfl (cdna3_s_subb_u32_conforms.mono (gen_sub_cdna3 0 5))⟩,
+  ⟨0, 6, .ofArch _ rfl (cdna3_s_min_i32_conforms.toArch.mono (gen_sub_cdna3 0 6))⟩,
+  ⟨0, 7, .ofArch _ rfl (cdna3_s_min_u32_conforms.toArch.mono (gen_sub_cdna3 0 7))⟩,
+  ⟨0, 8, .ofArch _ rfl (cdna3_s_max_i32_conforms.toArch.mono (gen_sub_cdna3 0 8))⟩,
+  ⟨0, 9, .ofArch _ rfl (cdna3_s_max_u32_conforms.toArch.mono (gen_sub_cdna3 0 9))⟩,
+  ⟨0, 10, .ofArch _ rfl (cdna3_s_cselect_b32_conforms.mono (gen_sub_cdna3 0 10))⟩,
+  ⟨0, 11, .ofArch _ rfl (cdna3_s_cselect_b64_conforms.mono (gen_sub_cdna3 0 11))⟩,
+  ⟨0, 12, .ofArch _ rfl (cdna3_s_and_b32_conforms.toArch.mono (gen_sub_cdna3 0 12))⟩,
+  ⟨0, 13, .ofArch _ rfl (cdna3_s_and_b64_conforms.toArch.mono (gen_sub_cdna3 0 13))⟩,
+  ⟨0, 14, .ofArch _ rfl (cdna3_s_or_b32_conforms.toArch.mono (gen_sub_cdna3 0 14))⟩,
+  ⟨0, 15, .ofArch _ rfl (cdna3_s_or_b64_conforms.toArch.mono (gen_sub_cdna3 0 15))⟩,
+  ⟨0, 16, .ofArch _ rfl (cdna3_s_xor_b32_conforms.toArch.mono (gen_sub_cdna3 0 16))⟩,
+  ⟨0, 17, .ofArch _ rfl (cdna3_s_xor_b64_conforms.toArch.mono (gen_sub_cdna3 0 17))⟩,
+  ⟨0, 18, .ofArch _ rfl (cdna3_s_andn2_b32_conforms.toArch.mono (gen_sub_cdna3 0 18))⟩,
+  ⟨0, 19, .ofArch _ rfl (cdna3_s_andn2_b64_conforms.toArch.mono (gen_sub_cdna3 0 19))⟩,
+  ⟨0, 20, .ofArch _ rfl (cdna3_s_orn2_b32_conforms.toArch.mono (gen_sub_cdna3 0 20))⟩,
+  ⟨0, 21, .ofArch _ rfl (cdna3_s_orn2_b64_conforms.toArch.mono (gen_sub_cdna3 0 21))⟩,
+  ⟨0, 28, .ofArch _ rfl (cdna3_s_lshl_b32_conforms.toArch.mono (gen_sub_cdna3 0 28))⟩,
+  ⟨0, 29, .ofArch _ rfl (cdna3_s_lshl_b64_conforms.toArch.mono (gen_sub_cdna3 0 29))⟩,
+  ⟨0, 30, .ofArch _ rfl (cdna3_s_lshr_b32_conforms.toArch.mono (gen_sub_cdna3 0 30))⟩,
+  ⟨0, 31, .ofArch _ rfl (cdna3_s_lshr_b64_conforms.toArch.mono (gen_sub_cdna3 0 31))⟩,
+  ⟨0, 32, .ofArch _ rfl (cdna3_s_ashr_i32_conforms.toArch.mono (gen_sub_cdna3 0 32))⟩,
+  ⟨0, 33, .ofArch _ rfl (cdna3_s_ashr_i64_conforms.toArch.mono (gen_sub_cdna3 0 33))⟩,
+  ⟨0, 34, .ofArch _ rfl (cdna3_s_bfm_b32_conforms.toArch.mono (gen_sub_cdna3 0 34))⟩,
+  ⟨0, 36, .ofArch _ rfl (cdna3_s_mul_i32_conforms.toArch.mono (gen_sub_cdna3 0 36))⟩,
+  ⟨0, 37, .ofArch _ rfl (cdna3_s_bfe_u32_conforms.toArch.mono (gen_sub_cdna3 0 37))⟩,
+  ⟨0, 38, .ofArch _ rfl (cdna3_s_bfe_i32_conforms.toArch.mono (gen_sub_cdna3 0 38))⟩,
+  ⟨0, 44, .ofArch _ rfl (cdna3_s_mul_hi_u32_conforms.toArch.mono (gen_sub_cdna3 0 44))⟩,
+  ⟨1, 0, .ofArch _ rfl (cdna3_s_movk_i32_conforms.toArch.mono (gen_sub_cdna3 1 0))⟩,
+  ⟨1, 1, .ofArch _ rfl (cdna3_s_cmovk_i32_conforms.mono (gen_sub_cdna3 1 1))⟩,
+  ⟨1, 2, .ofArch _ rfl (cdna3_s_cmpk_eq_i32_conforms.toArch.mono (gen_sub_cdna3 1 2))⟩,
+  ⟨1, 3, .ofArch _ rfl (cdna3_s_cmpk_lg_i32_conforms.toArch.mono (gen_sub_cdna3 1 3))⟩,
+  ⟨1, 15, .ofArch _ rfl (cdna3_s_mulk_i32_conforms.toArch.mono (gen_sub_cdna3 1 15))⟩,
+  ⟨2, 0, .ofArch _ rfl (cdna3_s_mov_b32_conforms.toArch.mono (gen_sub_cdna3 2 0))⟩,
+  ⟨2, 1, .ofArch _ rfl (cdna3_s_mov_b64_conforms.toArch.mono (gen_sub_cdna3 2 1))⟩,
+  ⟨2, 4, .ofArch _ rfl (cdna3_s_not_b32_conforms.toArch.mono (gen_sub_cdna3 2 4))⟩,
+  ⟨2, 8, .ofArch _ rfl (cdna3_s_brev_b32_conforms.toArch.mono (hand_sub_cdna3 2 8 rfl))⟩,
+  ⟨2, 28, .ofArch _ rfl (cdna3_s_getpc_b64_conforms.toArch.mono (gen_sub_cdna3 2 28))⟩,
+  ⟨2, 32, .ofArch _ rfl (cdna3_s_and_saveexec_b64_conforms.toArch.mono (gen_sub_cdna3 2 32))⟩,
+  ⟨2, 33, .ofArch _ rfl (cdna3_s_or_saveexec_b64_conforms.toArch.mono (gen_sub_cdna3 2 33))⟩,
+  ⟨2, 34, .ofArch _ rfl (cdna3_s_xor_saveexec_b64_conforms.toArch.mono (gen_sub_cdna3 2 34))⟩,
+  ⟨2, 35, .ofArch _ rfl (cdna3_s_andn2_saveexec_b64_conforms.toArch.mono (gen_sub_cdna3 2 35))⟩,
+  ⟨2, 36, .ofArch _ rfl (cdna3_s_orn2_saveexec_b64_conforms.toArch.mono (gen_sub_cdna3 2 36))⟩,
+  ⟨2, 37, .ofArch _ rfl (cdna3_s_nand_saveexec_b64_conforms.toArch.mono (gen_sub_cdna3 2 37))⟩,
+  ⟨2, 38, .ofArch _ rfl (cdna3_s_nor_saveexec_b64_conforms.toArch.mono (gen_sub_cdna3 2 38))⟩,
+  ⟨2, 39, .ofArch _ rfl (cdna3_s_xnor_saveexec_b64_conforms.toArch.mono (gen_sub_cdna3 2 39))⟩,
+  ⟨2, 48, .ofArch _ rfl (cdna3_s_abs_i32_conforms.toArch.mono (gen_sub_cdna3 2 48))⟩,
+  ⟨3, 0, .ofArch _ rfl (cdna3_s_cmp_eq_i32_conforms.toArch.mono (gen_sub_cdna3 3 0))⟩,
+  ⟨3, 1, .ofArch _ rfl (cdna3_s_cmp_lg_i32_conforms.toArch.mono (gen_sub_cdna3 3 1))⟩,
+  ⟨3, 2, .ofArch _ rfl (cdna3_s_cmp_gt_i32_conforms.toArch.mono (gen_sub_cdna3 3 2))⟩,
+  ⟨3, 3, .ofArch _ rfl (cdna3_s_cmp_ge_i32_conforms.toArch.mono (gen_sub_cdna3 3 3))⟩,
+  ⟨3, 4, .ofArch _ rfl (cdna3_s_cmp_lt_i32_conforms.toArch.mono (gen_sub_cdna3 3 4))⟩,
+  ⟨3, 5, .ofArch _ rfl (cdna3_s_cmp_le_i32_conforms.toArch.mono (gen_sub_cdna3 3 5))⟩,
+  ⟨3, 6, .ofArch _ rfl (cdna3_s_cmp_eq_u32_conforms.toArch.mono (gen_sub_cdna3 3 6))⟩,
+  ⟨3, 7, .ofArch _ rfl (cdna3_s_cmp_lg_u32_conforms.toArch.mono (gen_sub_cdna3 3 7))⟩,
+  ⟨3, 8, .ofArch _ rfl (cdna3_s_cmp_gt_u32_conforms.toArch.mono (gen_sub_cdna3 3 8))⟩,
+  ⟨3, 9, .ofArch _ rfl (cdna3_s_cmp_ge_u32_conforms.toArch.mono (gen_sub_cdna3 3 9))⟩,
+  ⟨3, 10, .ofArch _ rfl (cdna3_s_cmp_lt_u32_conforms.toArch.mono (gen_sub_cdna3 3 10))⟩,
+  ⟨3, 11, .ofArch _ rfl (cdna3_s_cmp_le_u32_conforms.toArch.mono (gen_sub_cdna3 3 11))⟩,
+  ⟨4, 0, .ofArch _ rfl (cdna3_s_nop_conforms.toArch.mono (gen_sub_cdna3 4 0))⟩,
+  ⟨4, 2, .ofArch _ rfl (cdna3_s_branch_conforms.toArch.mono (gen_sub_cdna3 4 2))⟩,
+  ⟨4, 4, .ofArch _ rfl (cdna3_s_cbranch_scc0_conforms.mono (gen_sub_cdna3 4 4))⟩,
+  ⟨4, 5, .ofArch _ rfl (cdna3_s_cbranch_scc1_conforms.mono (gen_sub_cdna3 4 5))⟩,
+  ⟨4, 6, .ofArch _ rfl (cdna3_s_cbranch_vccz_conforms.toArch.mono (gen_sub_cdna3 4 6))⟩,
+  ⟨4, 7, .ofArch _ rfl (cdna3_s_cbranch_vccnz_conforms.toArch.mono (gen_sub_cdna3 4 7))⟩,
+  ⟨4, 8, .ofArch _ rfl (cdna3_s_cbranch_execz_conforms.toArch.mono (gen_sub_cdna3 4 8))⟩,
+  ⟨4, 9, .ofArch _ rfl (cdna3_s_cbranch_execnz_conforms.toArch.mono (gen_sub_cdna3 4 9))⟩,
+  ⟨4, 12, .ofArch _ rfl (cdna3_s_waitcnt_conforms.toArch.mono (gen_sub_cdna3 4 12))⟩ ]
+
+#eval show IO Unit from do
+  let m := uncovered Gen.gcn3.table (Proved.keys gcn3Proved) ++ uncovered Gen.cdna3.table (Proved.keys cdna3Proved)
+  unless m.isEmpty do
+    throw (IO.userError s!"scalar handlers (format, opcode, Go handler) without a conformance theorem: {m}")
+
+/-- Coverage obligation: every (format, opcode, handler) row of both regenerated dispatch tables —
+    translated and hand-modelled — has a conformance theorem in the lists above. -/
+theorem all_translated_handlers_have_a_theorem :
+    uncovered Gen.gcn3.table (Proved.keys gcn3Proved) = [] ∧
+    uncovered Gen.cdna3.table (Proved.keys cdna3Proved) = [] := by decide
+
+/-- every handler the translator could not translate has a hand-written model (`C03S_Hand.lean`) -/
+theorem hand_modelled_handlers_have_a_model :
+    (Gen.gcn3.handModelled.all fun h => Hand.gcn3.table.any fun r => r.2.2 == h) = true ∧
+    (Gen.cdna3.handModelled.all fun h => Hand.cdna3.table.any fun r => r.2.2 == h) = true := by decide
+
+/-- Whatever handler the GCN3 opcode switch (translated + hand-modelled) selects, for ANY format
+    and opcode: the ISA table specifies that opcode and the handler has exactly the specified
+    effect on every architectural input. -/
+theorem gcn3_every_dispatched_handler_conforms (fmt op : Nat) (h : ScalarIn → ScalarOut)
+    (hd : gcn3Dispatch fmt op = some h) : ConformsSpec gcn3Dispatch fmt op :=
+  conforms_of_covered all_translated_handlers_have_a_theorem.1 fmt op (gcn3_dispatch_rows fmt op h hd)
+
+/-- The same for the CDNA3 ALU. -/
+theorem cdna3_every_dispatched_handler_conforms (fmt op : Nat) (h : ScalarIn → ScalarOut)
+    (hd : cdna3Dispatch fmt op = some h) : ConformsSpec cdna3Dispatch fmt op :=
+  conforms_of_covered all_translated_handlers_have_a_theorem.2 fmt op (cdna3_dispatch_rows fmt op h hd)
+
+example : ConformsSpec gcn3Dispatch 2 8 := gcn3_every_dispatched_handler_conforms 2 8 _ rfl
+
+/-! ## Runs: SCC is a bit in every reachable state, and whole programs conform -/
+
+/-- `scc_is_bit`: SCC ∈ {0,1} is an invariant of execution — from a state whose SCC is a bit (a
+    fresh wavefront has SCC = 0) every run of scalar instructions, on the ISA specification and on
+    either modelled ALU, ends in a state whose SCC is a bit.  This discharges the `SCC ∈ {0,1}`
+    assumption the SCC-reading conformance theorems used to carry. -/
+theorem scc_is_bit (ds : List DInst) (st st' : MState) (hst : st.scc ≤ 1) :
+    (run specSem ds st = some st' → st'.scc ≤ 1) ∧
+    (run (genSemOf gcn3Dispatch Gen.gcn3.table) ds st = some st' → st'.scc ≤ 1) ∧
+    (run (genSemOf cdna3Dispatch Gen.cdna3.table) ds st = some st' → st'.scc ≤ 1) :=
+  ⟨run_spec_scc ds st st' hst,
+   fun h => run_spec_scc ds st st' hst (run_conforms gcn3_every_dispatched_handler_conforms ds st st' hst h),
+   fun h => run_spec_scc ds st st' hst (run_conforms cdna3_every_dispatched_handler_conforms ds st st' hst h)⟩
+
+/-- Run-level conformance, GCN3: for EVERY program of scalar instructions (any formats, opcodes,
+    operands) and every start state whose SCC is a bit, if the modelled `emu.ALUImpl` executes the
+    program to `st'` then the ISA specification executes it to the same `st'` (operand fetch,
+    write-back and all intermediate states included). -/
+theorem gcn3_run_conforms (ds : List DInst) (st st' : MState) (hst : st.scc ≤ 1)
+    (h : run (genSemOf gcn3Dispatch Gen.gcn3.table) ds st = some st') : run specSem ds st = some st' :=
+  run_conforms gcn3_every_dispatched_handler_conforms ds st st' hst h
+
+/-- Run-level conformance, CDNA3 (`cdna3.ALU`). -/
+theorem cdna3_run_conforms (ds : List DInst) (st st' : MState) (hst : st.scc ≤ 1)
+    (h : run (genSemOf cdna3Dispatch Gen.cdna3.table) ds st = some st') : run specSem ds st = some st' :=
+  run_conforms cdna3_every_dispatched_handler_conforms ds st st' hst h
+
+/-- Both ALUs agree on whole programs: a program both execute ends in the same state. -/
+theorem alus_agree_on_runs (ds : List DInst) (st sg sc : MState) (hst : st.scc ≤ 1)
+    (hg : run (genSemOf gcn3Dispatch Gen.gcn3.table) ds st = some sg)
+    (hc : run (genSemOf cdna3Dispatch Gen.cdna3.table) ds st = some sc) : sg = sc := by
+  have h1 := gcn3_run_conforms ds st sg hst hg
+  have h2 := cdna3_run_conforms ds st sc hst hc
+  rw [h1] at h2
+  exact Option.some.inj h2
+
+/-- non-vacuity: `s_addc_u32 s2, s0, s1` then `s_cselect_b32 s3, s0, s1` (both read SCC) run on both models -/
+example : (run (genSemOf gcn3Dispatch Gen.gcn3.table)
+    [⟨0, 4, 2, 0, 1, 0, 0⟩, ⟨0, 10, 3, 0, 1, 0, 0⟩]
+    { s := [(0, 0xffffffff), (1, 1)], vcc := 0, exec := 1, scc := 1, pc := 0x1000, m0 := 0 }).map (fun s => (s.sreg 2, s.sreg 3, s.scc))
+    = some (1, 0xffffffff, 1) := by decide
 
 /-! ## Frame -/
 
@@ -741,7 +1148,7 @@ theorem frame_of_conforms {disp : Nat → Nat → Option (ScalarIn → ScalarOut
   exact ⟨id, id, id, id, id⟩
 
 /-- e.g. the GCN3 `s_mul_i32` handler writes its destination and nothing else (SCC untouched). -/
-theorem gcn3_s_mul_i32_frame :
+theorem gcn3_s_mul_i32_writes_dst_only :
     ∃ f, Gen.gcn3.dispatch 0 36 = some f ∧ ∀ i, (f i).scc = none ∧ (f i).vcc = none ∧ (f i).exec = none ∧ (f i).pc = none := by
   obtain ⟨f, hf, h⟩ := frame_of_conforms gcn3_s_mul_i32_conforms
   exact ⟨f, hf, fun i => ⟨(h i).2.2.2.1 rfl, (h i).1 rfl, (h i).2.2.1 rfl, (h i).2.1 rfl⟩⟩
